@@ -217,6 +217,10 @@ type c10exp struct {
 	ends    bool         // ends by itself
 	codes   []codes.Code // accepted status codes when it ends by itself; nil: any error status
 	reverse bool
+	// stopTsOnEmptyLog: a stop time on a log that holds nothing. Whether the request is refused or ends at once is
+	// not documented; that it never delivers a message stamped after its stop time holds under any reading.
+	stopTsOnEmptyLog bool
+	stopTs           int64
 }
 
 type c10live struct {
@@ -733,6 +737,9 @@ func (c *c10) expect(sh c10shape) (*client.SubscribeRequest, *c10exp) {
 		}
 		if E == -2 {
 			x.spec = false // a stop time before the first message: no documented outcome
+			if len(all) == 0 && newest == -1 && !sh.reverse {
+				x.stopTsOnEmptyLog, x.stopTs = true, sreq.StopTimestamp
+			}
 		}
 		x.desc += fmt.Sprintf(" stop=TIMESTAMP(%d -> last offset %d)", sreq.StopTimestamp, E)
 	default:
@@ -915,6 +922,33 @@ func (c *c10) subOp(i int, op hx.Op) (judged, unspecified bool) {
 		return false, false
 	}
 	sreq, x := c.expect(sh)
+	if !x.spec && x.stopTsOnEmptyLog && !c.readonly && !c.activeEmpty && op.Arg(5, 0) == 1 {
+		// the one clause that holds whatever the reading: nothing stamped after the stop time is delivered
+		h.s.Logf("request %d: %s (judged for deliveries beyond the stop time only)", i, x.desc)
+		ctx, cancel := ctxT(time.Hour)
+		st := h.subscribe(c.n, ctx, sreq)
+		h.waitFor("sub-settle", 200*time.Millisecond, func() bool { return st.ended })
+		simrt.Sleep(2 * time.Millisecond)
+		if err := c.publishNext(fmt.Sprintf("after-stop-time-%d", i)); err != nil {
+			h.oc.Trouble = err.Error()
+			cancel()
+			return true, false
+		}
+		simrt.Sleep(50 * time.Millisecond)
+		c.cnt["probe.stop_time_on_empty_log_judged"]++
+		for _, g := range st.msgs {
+			if g.Timestamp > x.stopTs {
+				c.fail(x, "beyond-stop-time", "delivered offset %d stamped %d, after its stop time %d (the log held nothing when the request was made)", g.Offset, g.Timestamp, x.stopTs)
+				break
+			}
+		}
+		cancel()
+		h.waitFor("sub-cancelled", 5*time.Second, func() bool { return st.ended })
+		if !c.refresh() {
+			return true, false
+		}
+		return true, false
+	}
 	if !x.spec {
 		return false, true
 	}
